@@ -66,9 +66,22 @@ func (o *ObjectStorage) IterEncodedObjects(t plumbing.ObjectType) (storer.Encode
 		return nil, err
 	}
 
+	// An object of the base that is written again in the transaction is
+	// listed once.
+	var pending []plumbing.EncodedObject
+	err = temporalIter.ForEach(func(obj plumbing.EncodedObject) error {
+		if o.EncodedObjectStorer.HasEncodedObject(obj.Hash()) != nil {
+			pending = append(pending, obj)
+		}
+		return nil
+	})
+	if err != nil {
+		return nil, err
+	}
+
 	return storer.NewMultiEncodedObjectIter([]storer.EncodedObjectIter{
 		baseIter,
-		temporalIter,
+		storer.NewEncodedObjectSliceIter(pending),
 	}), nil
 }
 
